@@ -271,6 +271,9 @@ def after_stmt(stmt, kinds=("return", "continue", "break", "panic")):
         if conds:
             for f in negate(conds):
                 k = fact_str(f)
+                # the negated failure of a `let .. else` is the match that the let itself already states
+                if stmt["k"] == "Local" and stmt.get("else") is not None and f[0] == "iflet" and f[3] and render(f[2]) == render(stmt["init"]) and out and _ctor(f[1]) == _ctor(out[0][1]):
+                    continue
                 if k not in seen:
                     seen.add(k)
                     out.append(f)
@@ -663,3 +666,39 @@ def each_form(conds, exprs):
         else:
             rest.append(fact_str(c).replace(" ", ""))
     return sorted(rest), [render(_strip(_subst(e, env))).replace(" ", "") for e in exprs]
+
+
+def expand_value_cases(conds, root):
+    """`let v = match x { A => None, _ => f(x) }; if let Some(y) = v`: the `Some` can only come from the arm(s) that do not
+    yield `None`.  When exactly one such arm exists, the fact `let Some(y) = v` is replaced by that arm's own conditions
+    followed by `let Some(y) = <the arm's value>`.  `root` is the block in which the lets are looked up."""
+    lets = {}
+    for n in walk(root):
+        if n["k"] == "Local" and n.get("init") is not None:
+            p = n["pat"]
+            if p["k"] == "PType":
+                p = p["pat"]
+            if p["k"] == "PIdent" and not p.get("mut"):
+                lets[p["name"]] = n["init"]
+    out = []
+    for f in conds:
+        done = False
+        if f[0] == "iflet" and f[3] and render(f[1]).replace(" ", "").startswith(("Some(", "Ok(")):
+            sc = f[2]
+            while isinstance(sc, dict) and sc.get("k") in ("Paren", "Ref"):
+                sc = sc["e"]
+            if sc.get("k") == "Path" and sc["path"] in lets and lets[sc["path"]].get("k") in ("Match", "If"):
+                alts = []
+                for c2, atoms, ex in enumerate_paths(lets[sc["path"]]):
+                    if ex is not None or not atoms:
+                        continue
+                    leaf = atoms[-1]
+                    if render(leaf).replace(" ", "") in ("None", "Option::None"):
+                        continue
+                    alts.append((c2, leaf))
+                if len(alts) == 1:
+                    out += list(alts[0][0]) + [IFLET(f[1], alts[0][1], True)]
+                    done = True
+        if not done:
+            out.append(f)
+    return out
